@@ -65,6 +65,8 @@ type FuncVC struct {
 	unsupported    map[string]bool
 	unknownCalls   map[string]bool
 	matchedAsserts map[*CallAssert]bool // call-site assertions that found their call in this pass
+	mentionedCalls map[string]bool      // calls("<name>") counters the contract of this function mentions
+	countedCalls   map[string]bool      // ... and those that a direct call in this function has advanced
 	unclaimed      map[string]bool      // obligations of a partially specified function that are generated but not claimed
 	assumed        map[string]bool
 	inlined        map[string]bool
@@ -196,6 +198,8 @@ func (vc *FuncVC) reset() {
 	vc.unsupported = map[string]bool{}
 	vc.unknownCalls = map[string]bool{}
 	vc.matchedAsserts = map[*CallAssert]bool{}
+	vc.mentionedCalls = map[string]bool{}
+	vc.countedCalls = map[string]bool{}
 	vc.unclaimed = map[string]bool{}
 	vc.assumed = map[string]bool{}
 	vc.inlined = map[string]bool{}
@@ -444,6 +448,27 @@ func (vc *FuncVC) mapKeys(mt *types.Map) (kv, kd, kl string) {
 func (vc *FuncVC) dynKey() string {
 	vc.regKey("ghost:dyncalls", "Int")
 	return "ghost:dyncalls"
+}
+
+// callsKey is a ghost counter of calls of the function named (as in contract
+// headers: "(*Entry).merge"); like dynKey it only ever grows, and a direct call
+// of that function makes it grow strictly.
+func (vc *FuncVC) callsKey(name string) string {
+	k := "ghost:calls:" + name
+	vc.regKey(k, "Int")
+	return k
+}
+
+// ghostKeys lists the ghost counters known so far, sorted.
+func (vc *FuncVC) ghostKeys() []string {
+	var out []string
+	for k := range vc.universe {
+		if strings.HasPrefix(k, "ghost:") {
+			out = append(out, k)
+		}
+	}
+	sort.Strings(out)
+	return out
 }
 
 func (vc *FuncVC) allocKey() string {
